@@ -819,7 +819,8 @@ theorem sortHL_HWF_counterexample :
     expand [⟨['x'], 0, 1, 0, true⟩] = [['x']] := by
   unfold HWF; decide +kernel
 
-/-! ## fuel: the merge sort and `hostlist_collapse` never run out; only the bound of `hostlist_coalesce` is unproved -/
+/-! ## fuel: the merge sort and `hostlist_collapse` never run out (the bound of `hostlist_coalesce` is proved sufficient in
+    `Pm/SortFuel.lean`: `coalesce_ne_fuel`, `sortHL_ne_fuel`) -/
 
 theorem mergeF_ne_fuel : ∀ (f : Nat) (st : Store) (l r acc : List Nat), l.length + r.length < f →
     mergeF f st l r acc ≠ .fuel
